@@ -132,6 +132,11 @@ static void muggle_merge_sort_recursive(void **ptr, void **arr, size_t left, siz
 
 bool muggle_merge_sort(void **ptr, size_t count, muggle_dsaa_data_cmp cmp)
 {
+	if (count == 0)
+	{
+		return true;
+	}
+
 	void **arr = (void**)malloc(sizeof(void*) * count);
 	if (arr == NULL)
 	{
